@@ -28,7 +28,25 @@ var hostileLens = []uint32{0, 1, 2, 7, 8, 9, 0xff, 0x1000, 0xffff, 0x10000, 0x7f
 
 func mutateUnit(t *rapid.T, u []byte) []byte {
 	u = append([]byte(nil), u...)
-	switch rapid.IntRange(0, 12).Draw(t, "mut") {
+	switch rapid.IntRange(0, 13).Draw(t, "mut") {
+	case 13: // hostile UTF-16 content of the string field (cookie / client name / server name), lengths consistent
+		if len(u) >= 8 {
+			typ := binary.LittleEndian.Uint16(u)
+			off := map[uint16]int{tsgu.PktTunnelCreate: 16, tsgu.PktTunnelAuth: 8, tsgu.PktChannelCreate: 14}[typ]
+			if off > 0 && len(u) >= off+2 {
+				units := rapid.SliceOfN(rapid.SampledFrom([]uint16{'a', '1', '.', ':', 0, 0xd800, 0xd83d, 0xdbff, 0xdc00, 0xde00, 0xdfff, 0xfffe, 0xffff, 0x0100, 0x2028}), 0, 12).Draw(t, "units")
+				if rapid.Bool().Draw(t, "endsInSurrogate") {
+					units = append(units, rapid.SampledFrom([]uint16{0xd800, 0xd83d, 0xdbff, 0xdc00, 0xdfff}).Draw(t, "lastUnit"))
+				}
+				s := tsgu.UTF16Raw(units)
+				if rapid.IntRange(0, 5).Draw(t, "oddBytes") == 0 {
+					s = append(s, 0x41) // half a code unit
+				}
+				body := append([]byte(nil), u[8:off]...)
+				body = binary.LittleEndian.AppendUint16(body, uint16(len(s)))
+				u = tsgu.Packet(typ, append(body, s...))
+			}
+		}
 	case 10, 11: // hostile inner length field of this packet type (cookie / client name / server name / data payload)
 		if len(u) >= 8 {
 			off := map[uint16]int{tsgu.PktTunnelCreate: 16, tsgu.PktTunnelAuth: 8, tsgu.PktChannelCreate: 14, tsgu.PktData: 8}[binary.LittleEndian.Uint16(u)]
